@@ -58,7 +58,7 @@ def main():
         "2 entry points x 8 scripts x placeholders (6 for nbmerge; none / empty base for the driver) x 7 strategy "
         "configurations x output modes (nbmerge: file / stdout / decisions file) without faults; 2 entry points x 8 scripts x (no fault + 9 steps x 4 kinds)%s; ids on/off; "
         "symbolic execution counts and metadata values" % (" x 3 placeholders" if t == "thorough" else ""))
-    chk.outside += ["--decisions without --out (pretty-printed to the log: rendering is C16)", "faults in stdout / decisions-file modes", "more than one fault per run", "faults inside C-level calls",
+    chk.outside += ["--decisions without --out (pretty-printed to the log: rendering is C16)", "step faults in stdout / decisions-file modes (stdout mode: only the consumer of stdout failing -- closed pipe, full disk -- is injected)", "stdout encodings other than UTF-8 (a non-UTF-8 locale; setup_std_streams only re-wraps the interpreter's original sys.stdout)", "more than one fault per run", "faults inside C-level calls",
                     "null-file placeholders combined with id-less notebooks (known finding F21)"]
     chk.stubs += ["nbdime.nbmergeapp.read_notebook -> hands back the generator's notebooks for the three real temp files (real function for placeholders)",
                   "nbdime.nbmergeapp.nbformat.write -> instantiates symbolic leaves with the path's model, then the real nbformat.write",
